@@ -89,7 +89,7 @@ class Harness:
     expect_fail: list of vk: tags that must FAIL (calibration only)."""
 
     def __init__(self, name, engine="e1", unwind=None, skeletons=None, allow_fail=None,
-                 clause="", expect_fail=(), stubs=False, timeout=None, witness=True, extra_cbmc=(), split=False):
+                 clause="", expect_fail=(), stubs=False, timeout=None, witness=True, extra_cbmc=(), split=False, tolerant=True):
         self.name = name
         self.engine = engine
         self.unwind = unwind
@@ -101,6 +101,7 @@ class Harness:
         self.timeout = timeout
         self.witness = witness
         self.extra_cbmc = tuple(extra_cbmc)
+        self.tolerant = tolerant    # hunt: compare f32 values with a relative tolerance (rounding-level differences are not violations)
         self.split = split          # e2 only: one SMT query per harness obligation (+ one for all implicit properties)
 
 
